@@ -10,9 +10,10 @@ namespace Pegtl
     events, and at an `exit` that is not a success cut the log back to where its `enter` was. -/
 def survStep (s : List Nat × List Ev) (e : Ev) : List Nat × List Ev :=
   match e with
-  | .enter _ _ _ _ => (s.2.length :: s.1, s.2)
+  | .enter _ _ _ _ _ => (s.2.length :: s.1, s.2)
   | .apply _ _ _ _ => (s.1, s.2 ++ [e])
   | .apply0 _ _ _ => (s.1, s.2 ++ [e])
+  | .ruleApply _ _ _ _ => (s.1, s.2 ++ [e])
   | .exit _ r _ =>
     match s.1 with
     | [] => s
@@ -36,19 +37,20 @@ theorem Adds.append {a b sa sb : List Ev} (ha : Adds a sa) (hb : Adds b sb) : Ad
   intro stk acc
   rw [survRun_append, ha, hb, List.append_assoc]
 
-theorem Adds.hook {e : Ev} (h : (∀ i a m c, e ≠ .enter i a m c) ∧ (∀ i r c, e ≠ .exit i r c) ∧
-    (∀ i sd b c, e ≠ .apply i sd b c) ∧ (∀ i sd c, e ≠ .apply0 i sd c)) : Adds [e] [] := by
+theorem Adds.hook {e : Ev} (h : (∀ i a m c k, e ≠ .enter i a m c k) ∧ (∀ i r c, e ≠ .exit i r c) ∧
+    (∀ i sd b c, e ≠ .apply i sd b c) ∧ (∀ i sd c, e ≠ .apply0 i sd c) ∧ (∀ i sd b c, e ≠ .ruleApply i sd b c)) : Adds [e] [] := by
   intro stk acc
-  obtain ⟨h1, h2, h3, h4⟩ := h
+  obtain ⟨h1, h2, h3, h4, h5⟩ := h
   cases e with
-  | enter i a m c => exact absurd rfl (h1 i a m c)
+  | enter i a m c k => exact absurd rfl (h1 i a m c k)
   | exit i r c => exact absurd rfl (h2 i r c)
   | apply i sd b c => exact absurd rfl (h3 i sd b c)
   | apply0 i sd c => exact absurd rfl (h4 i sd c)
   | sctor d => simp [survRun, survStep]
   | ssucc d c o => simp [survRun, survStep]
   | sdtor d => simp [survRun, survStep]
-  | start i c => simp [survRun, survStep]
+  | ruleApply i sd b c => exact absurd rfl (h5 i sd b c)
+  | start i c k => simp [survRun, survStep]
   | success i c => simp [survRun, survStep]
   | failure i c => simp [survRun, survStep]
   | unwind i c => simp [survRun, survStep]
@@ -59,6 +61,22 @@ theorem Adds.act_apply (i sd : Nat) (b c : Cursor) : Adds [Ev.apply i sd b c] [E
 
 theorem Adds.act_apply0 (i sd : Nat) (c : Cursor) : Adds [Ev.apply0 i sd c] [Ev.apply0 i sd c] := by
   intro stk acc; simp [survRun, survStep]
+
+theorem Adds.act_rule (i sd : Nat) (b c : Cursor) : Adds [Ev.ruleApply i sd b c] [Ev.ruleApply i sd b c] := by
+  intro stk acc; simp [survRun, survStep]
+
+/-- The calls of rule-level actions all enter the transactional log. -/
+theorem runActs_adds (cx : Ctx) (sd : Nat) (b e : Cursor) : ∀ acts : List RuleAct,
+    Adds (runActs cx sd b e acts).2 (runActs cx sd b e acts).2
+  | [] => by simpa [runActs] using Adds.nil
+  | x :: xs => by
+    simp only [runActs]
+    split
+    · exact Adds.act_rule _ _ _ _
+    · split
+      · exact Adds.act_rule _ _ _ _
+      · have := (Adds.act_rule x.id sd (cx.rep b) (cx.rep e)).append (runActs_adds cx sd b e xs)
+        simpa using this
 
 /-- What a body guarantees: if it matched, its trace adds exactly its surviving actions; otherwise
     it adds *something* (which the enclosing invocation's failed `exit` will cut away). -/
@@ -85,13 +103,13 @@ theorem weak_append {a b : List Ev}
   exact ⟨x ++ y, by rw [survRun_append, hx, hy, List.append_assoc]⟩
 
 /-- Closing the bracket: a body result becomes a complete invocation. -/
-theorem bracket_surv (cx : Ctx) (i : Nat) (a : AMode) (m : RMode) (st : St) (r : Ret) (h : BodySurv r) :
-    InvSurv (bracket cx i a m st r) := by
+theorem bracket_surv (cx : Ctx) (i : Nat) (a : AMode) (m : RMode) (kc : Nat) (st : St) (r : Ret) (h : BodySurv r) :
+    InvSurv (bracket cx i a m kc st r) := by
   constructor
   · intro stk acc
     simp only [bracket, dropOnFail_raw, dropOnFail_res, List.cons_append]
-    show survRun (stk, acc) (Ev.enter i a m (cx.rep st.cur) :: (r.raw ++ [Ev.exit i r.res.code _])) = _
-    have h1 : survRun (stk, acc) (Ev.enter i a m (cx.rep st.cur) :: (r.raw ++ [Ev.exit i r.res.code (cx.rep r.dropOnFail.st.cur)])) =
+    show survRun (stk, acc) (Ev.enter i a m (cx.rep st.cur) kc :: (r.raw ++ [Ev.exit i r.res.code _])) = _
+    have h1 : survRun (stk, acc) (Ev.enter i a m (cx.rep st.cur) kc :: (r.raw ++ [Ev.exit i r.res.code (cx.rep r.dropOnFail.st.cur)])) =
         survRun (acc.length :: stk, acc) (r.raw ++ [Ev.exit i r.res.code (cx.rep r.dropOnFail.st.cur)]) := by
       simp [survRun, survStep]
     rw [h1, survRun_append]
@@ -377,9 +395,9 @@ theorem BodySurv.guard_drop' {r : Ret} (h : BodySurv r) (m : RMode) (c : Cursor)
     simp [Ret.dropOnFail, guardRestore, hok']
   rw [this]; simpa using h.1 hok'
 
-theorem hook_sctor (d : Nat) : Adds [Ev.sctor d] [] := Adds.hook ⟨by simp, by simp, by simp, by simp⟩
-theorem hook_ssucc (d : Nat) (c : Cursor) (o : Nat) : Adds [Ev.ssucc d c o] [] := Adds.hook ⟨by simp, by simp, by simp, by simp⟩
-theorem hook_sdtor (d : Nat) : Adds [Ev.sdtor d] [] := Adds.hook ⟨by simp, by simp, by simp, by simp⟩
+theorem hook_sctor (d : Nat) : Adds [Ev.sctor d] [] := Adds.hook ⟨by simp, by simp, by simp, by simp, by simp⟩
+theorem hook_ssucc (d : Nat) (c : Cursor) (o : Nat) : Adds [Ev.ssucc d c o] [] := Adds.hook ⟨by simp, by simp, by simp, by simp, by simp⟩
+theorem hook_sdtor (d : Nat) : Adds [Ev.sdtor d] [] := Adds.hook ⟨by simp, by simp, by simp, by simp, by simp⟩
 
 /-- The events of a state object do not touch the transactional log. -/
 theorem BodySurv.scope {r : Ret} (h : BodySurv r) (cx : Ctx) (o : Nat) (b : Bool) : BodySurv (stateScope cx o b r) := by
@@ -542,7 +560,7 @@ theorem body_sv {rec : Rec} (hrec : SvRec rec) (cx : Ctx) (k : Nat) (kind : Kind
       split at h
       · simp only [Option.some.injEq] at h; subst h
         refine ⟨fun hok => by simp at hok, ?_⟩
-        exact weak_append s1.weak (Adds.hook ⟨by simp, by simp, by simp, by simp⟩).weak
+        exact weak_append s1.weak (Adds.hook ⟨by simp, by simp, by simp, by simp, by simp⟩).weak
       · simp only [Option.some.injEq] at h; subst h; exact BodySurv.of_adds s1
   | ifMust dflt cond mn =>
     simp only [body] at h
@@ -562,7 +580,7 @@ theorem body_sv {rec : Rec} (hrec : SvRec rec) (cx : Ctx) (k : Nat) (kind : Kind
       · simp only [Option.some.injEq] at h; subst h; exact BodySurv.of_adds s1.1
   | raise t =>
     simp only [body, Option.some.injEq] at h; subst h
-    exact BodySurv.of_adds (Adds.hook ⟨by simp, by simp, by simp, by simp⟩)
+    exact BodySurv.of_adds (Adds.hook ⟨by simp, by simp, by simp, by simp, by simp⟩)
   | tryCatchReturnFalse ex c =>
     simp only [body, Option.map_eq_some_iff] at h
     obtain ⟨r0, h0, rfl⟩ := h
@@ -582,10 +600,43 @@ theorem body_sv {rec : Rec} (hrec : SvRec rec) (cx : Ctx) (k : Nat) (kind : Kind
   | enable c => simp only [body] at h; exact BodySurv.of_adds (hrec _ _ _ _ _ _ h).1
   | disable c => simp only [body] at h; exact BodySurv.of_adds (hrec _ _ _ _ _ _ h).1
   | action fam c => simp only [body] at h; exact BodySurv.of_adds (hrec _ _ _ _ _ _ h).1
+  | control kc c => simp only [body] at h; exact BodySurv.of_adds (hrec _ _ _ _ _ _ h).1
   | state d c =>
     simp only [body, Option.map_eq_some_iff] at h
     obtain ⟨r0, h0, rfl⟩ := h
     exact (BodySurv.of_adds (hrec _ _ _ _ _ _ h0).1).scope _ _ _
+  | ifApply c acts =>
+    simp only [body] at h
+    split at h
+    · simp only [Option.map_eq_some_iff] at h
+      obtain ⟨r0, h0, rfl⟩ := h
+      have a0 := (hrec _ _ _ _ _ _ h0).1
+      split
+      · -- the rule matched: its actions, then the rule-level ones
+        have hadd : Adds (r0.raw ++ (runActs cx env.sd st.cur r0.st.cur acts).2)
+            (r0.surv ++ (runActs cx env.sd st.cur r0.st.cur acts).2) := a0.append (runActs_adds cx _ _ _ acts)
+        refine ⟨fun hok => ?_, ?_⟩
+        · simp only [dropOnFail_res, guardRestore_res] at hok
+          simpa [Ret.dropOnFail, guardRestore, hok] using hadd
+        · simpa using hadd.weak
+      · refine ⟨fun hok => ?_, ?_⟩
+        · simp only [dropOnFail_res, guardRestore_res] at hok
+          simpa [Ret.dropOnFail, guardRestore, hok] using a0
+        · simpa using a0.weak
+    · exact BodySurv.of_adds (hrec _ _ _ _ _ _ h).1
+  | applyR acts =>
+    simp only [body] at h
+    split at h
+    · simp only [Option.some.injEq] at h
+      subst h
+      have hadd := runActs_adds cx env.sd st.cur st.cur acts
+      refine ⟨fun hok => ?_, ?_⟩
+      · simp only [dropOnFail_res] at hok
+        simpa [Ret.dropOnFail, hok] using hadd
+      · simpa using hadd.weak
+    · simp only [Option.some.injEq] at h
+      subst h
+      exact BodySurv.of_adds Adds.nil
 
 end Pegtl
 
@@ -597,11 +648,17 @@ theorem actEvent_adds (cx : Ctx) (i : Nat) (act : ActionSpec) (sd : Nat) (b e : 
   · exact Adds.act_apply _ _ _ _
   · exact Adds.act_apply0 _ _ _
 
-theorem hook_start (i : Nat) (c : Cursor) : Adds [Ev.start i c] [] := Adds.hook ⟨by simp, by simp, by simp, by simp⟩
-theorem hook_success (i : Nat) (c : Cursor) : Adds [Ev.success i c] [] := Adds.hook ⟨by simp, by simp, by simp, by simp⟩
-theorem hook_failure (i : Nat) (c : Cursor) : Adds [Ev.failure i c] [] := Adds.hook ⟨by simp, by simp, by simp, by simp⟩
-theorem hook_unwind (i : Nat) (c : Cursor) : Adds [Ev.unwind i c] [] := Adds.hook ⟨by simp, by simp, by simp, by simp⟩
-theorem hook_raise (i : Nat) (c : Cursor) : Adds [Ev.raise i c] [] := Adds.hook ⟨by simp, by simp, by simp, by simp⟩
+theorem hook_start (i : Nat) (c : Cursor) (k : Nat) : Adds [Ev.start i c k] [] := Adds.hook ⟨by simp, by simp, by simp, by simp, by simp⟩
+theorem hook_success (i : Nat) (c : Cursor) : Adds [Ev.success i c] [] := Adds.hook ⟨by simp, by simp, by simp, by simp, by simp⟩
+theorem hook_failure (i : Nat) (c : Cursor) : Adds [Ev.failure i c] [] := Adds.hook ⟨by simp, by simp, by simp, by simp, by simp⟩
+theorem hook_unwind (i : Nat) (c : Cursor) : Adds [Ev.unwind i c] [] := Adds.hook ⟨by simp, by simp, by simp, by simp, by simp⟩
+theorem hook_raise (i : Nat) (c : Cursor) : Adds [Ev.raise i c] [] := Adds.hook ⟨by simp, by simp, by simp, by simp, by simp⟩
+
+theorem failureHook_sv (cx : Ctx) (i : Nat) (c : Cursor) (r : Ret)
+    (h : ∀ stk acc, ∃ extra, survRun (stk, acc) r.raw = (stk, acc ++ extra)) : BodySurv (failureHook cx i c r) :=
+  ⟨fun hok => absurd hok (failureHook_res_ne_ok cx i c r),
+   failureHook_raw_closed (Q := fun l => ∀ stk acc, ∃ extra, survRun (stk, acc) l = (stk, acc ++ extra)) weak_append
+     (hook_failure _ _).weak (fun _ => (hook_raise _ _).weak) h⟩
 
 theorem afterBody_sv (cx : Ctx) (i : Nat) (a : AMode) (act : ActionSpec) (sd : Nat) (saved : Cursor) (r : Ret) (h : BodySurv r) :
     BodySurv (afterBody cx i a act sd saved r) := by
@@ -613,8 +670,7 @@ theorem afterBody_sv (cx : Ctx) (i : Nat) (a : AMode) (act : ActionSpec) (sd : N
     split
     · exact weak_append h.2 (hook_unwind _ _).weak
     · simpa using h.2
-  · rename_i hf
-    exact ⟨fun hok => by simp [hf] at hok, weak_append h.2 (hook_failure _ _).weak⟩
+  · exact failureHook_sv cx i _ r h.2
   · rename_i hok
     have hs := h.1 hok
     simp only
@@ -627,11 +683,7 @@ theorem afterBody_sv (cx : Ctx) (i : Nat) (a : AMode) (act : ActionSpec) (sd : N
       split
       · exact (hook_unwind _ _).weak
       · exact Adds.nil.weak
-    · refine ⟨fun ho => by simp at ho, ?_⟩
-      have : r.raw ++ [actEvent cx i act sd saved r.st.cur, Ev.failure i (cx.rep r.st.cur)] =
-          r.raw ++ ([actEvent cx i act sd saved r.st.cur] ++ [Ev.failure i (cx.rep r.st.cur)]) := by simp
-      simp only [this]
-      exact weak_append hs.weak (weak_append (actEvent_adds _ _ _ _ _ _).weak (hook_failure _ _).weak)
+    · exact failureHook_sv cx i _ _ (weak_append hs.weak (actEvent_adds _ _ _ _ _ _).weak)
     · apply BodySurv.of_adds
       have := hs.append ((actEvent_adds cx i act sd saved r.st.cur).append (hook_success i (cx.rep r.st.cur)))
       simpa using this
@@ -643,12 +695,12 @@ theorem nodeCore_sv {rec : Rec} (hrec : SvRec rec) (cx : Ctx) (k i : Nat) (nd : 
   · exact body_sv hrec cx k _ _ _ _ _ _ h
   · simp only [Option.map_eq_some_iff] at h
     obtain ⟨r0, h0, rfl⟩ := h
-    have hb := afterBody_sv cx i a (cx.actOf env i nd) env.sd st.cur r0 (body_sv hrec cx k _ _ _ _ _ _ h0)
+    have hb := afterBody_sv (cx.withCtl env.ctl) i a (cx.actOf env i nd) env.sd st.cur r0 (body_sv hrec cx k _ _ _ _ _ _ h0)
     refine ⟨fun hok => ?_, ?_⟩
-    · have hok' : (afterBody cx i a (cx.actOf env i nd) env.sd st.cur r0).res = .ok := by simpa using hok
-      have := (hook_start i (cx.rep st.cur)).append (hb.1 hok')
+    · have hok' : (afterBody (cx.withCtl env.ctl) i a (cx.actOf env i nd) env.sd st.cur r0).res = .ok := by simpa using hok
+      have := (hook_start i (cx.rep st.cur) env.ctl).append (hb.1 hok')
       simpa [guardRestore, hok'] using this
-    · simpa using weak_append (hook_start i (cx.rep st.cur)).weak hb.2
+    · simpa using weak_append (hook_start i (cx.rep st.cur) env.ctl).weak hb.2
 
 theorem nodeCall_sv {rec : Rec} (hrec : SvRec rec) (cx : Ctx) (k i : Nat) (a : AMode) (m : RMode)
     (env : Env) (st : St) (r : Ret) (h : nodeCall cx rec k i a m env st = some r) : InvSurv r := by
@@ -684,6 +736,7 @@ theorem nodeCall_sv {rec : Rec} (hrec : SvRec rec) (cx : Ctx) (k i : Nat) (a : A
     · simp only [Option.map_eq_some_iff] at h0
       obtain ⟨r1, h1, rfl⟩ := h0
       exact (BodySurv.of_adds (hrec _ _ _ _ _ _ h1).1).scope _ _ _
+    · exact nodeCore_sv hrec cx k i nd a m _ st r0 h0
 
 theorem run_sv (cx : Ctx) : ∀ n, SvRec (run cx n) := by
   intro n
